@@ -212,6 +212,9 @@ func buildOpt(o optT) dns.EDNS0 {
 		return &dns.EDNS0_TCP_KEEPALIVE{Code: dns.EDNS0TCPKEEPALIVE}
 	case dns.EDNS0PADDING:
 		return &dns.EDNS0_PADDING{Padding: make([]byte, vlib.Atoi(o.data))}
+	case dns.EDNS0EDE:
+		b := vlib.UnHex(o.data)
+		return &dns.EDNS0_EDE{InfoCode: uint16(b[0])<<8 | uint16(b[1])}
 	}
 	return &dns.EDNS0_LOCAL{Code: o.code, Data: vlib.UnHex(o.data)}
 }
@@ -245,6 +248,8 @@ func renderOpt(o dns.EDNS0, full bool) string {
 		return "O11.x"
 	case *dns.EDNS0_PADDING:
 		return fmt.Sprintf("O12.%d", len(v.Padding))
+	case *dns.EDNS0_EDE:
+		return fmt.Sprintf("O15.%04x", v.InfoCode)
 	case *dns.EDNS0_LOCAL:
 		return fmt.Sprintf("O%d.%s", v.Code, vlib.Hex(v.Data))
 	}
@@ -565,6 +570,38 @@ func pipeQ(f []string) vlib.Res {
 	return vlib.Res{Impl: impl, Oracle: o, Tags: tags}
 }
 
+// pipeBadVers: a query with an unsupported EDNS version is answered by the
+// edns handler itself (BADVERS); the upstream must not be reached and the
+// reply must not carry a subnet option either.
+func pipeBadVers(f []string) vlib.Res {
+	p := pipe
+	c, proto, ver := parseClient(f[0]), f[1], vlib.Atoi(f[2])
+	copts, chas := parseOpts(f[3])
+	st := p.st
+	before := st.ansCalls + st.nxCalls + st.aliasCalls
+	req := reqWith(fmt.Sprintf("bv%d.c19.test.", ver), dns.TypeA, false, copts, chas, uint8(ver), false)
+	reply := p.run(c, proto, req)
+	reached := st.ansCalls+st.nxCalls+st.aliasCalls > before
+	if reply == nil {
+		return vlib.Res{Impl: "noreply", Oracle: fail("pipe/no-reply", "")}
+	}
+	ropt := "noopt"
+	or := ""
+	if o := reply.IsEdns0(); o != nil {
+		ropt = renderOpts(o.Option, true)
+		if v := checkReply(o.Option); v != "" {
+			or = strings.Replace(v, "sig=reply/", "sig=reply/badvers/", 1)
+		}
+	}
+	if or == "" && reached {
+		or = fail("badvers/query-reached-upstream", "")
+	}
+	if or == "" {
+		or = "ok"
+	}
+	return vlib.Res{Impl: fmt.Sprintf("rcode=%d up=%s ropt=%s", reply.Rcode, vlib.B(reached), ropt), Oracle: or, Tags: "nt"}
+}
+
 func pipeDenial(f []string, alias bool) vlib.Res {
 	p := pipe
 	c, qid, cd := parseClient(f[0]), vlib.Atoi(f[1]), f[2] == "t"
@@ -804,6 +841,20 @@ func exec(op string) vlib.Res {
 			tags = "nt,prefetch-queued"
 		}
 		return vlib.Res{Impl: fmt.Sprintf("n=%d scoped=%d", n, scoped), Oracle: or, Tags: tags}
+	case "pipe forge":
+		// pipe forge <qid> <cd> <from|shared> <to|shared>
+		pfx := func(t string) netip.Prefix {
+			if t == "shared" {
+				return netip.Prefix{}
+			}
+			fam, addr, bits := parsePrefixTok(t)
+			return netip.PrefixFrom(toNetipAddr(fam, addr), bits)
+		}
+		q := dns.Question{Name: fmt.Sprintf("q%d.c19.test.", vlib.Atoi(a[0])), Qtype: dns.TypeA, Qclass: dns.ClassINET}
+		ok := cache.VerifC19Forge(pipe.ca, q, a[1] == "t", pfx(a[2]), pfx(a[3]))
+		return vlib.Res{Impl: map[bool]string{true: "ok", false: "none"}[ok], Tags: "nt,forged-collision"}
+	case "pipe badvers":
+		return pipeBadVers(a)
 	case "pipe nx":
 		return pipeDenial(a, false)
 	case "pipe alias":
